@@ -20,6 +20,7 @@
 }
 */
 #define XAT_UF_STRLEN
+#define XAT_LIGHT_UPDATE_ENTRY
 #include "xat_common.h"
 
 struct in_s {
@@ -113,7 +114,7 @@ static errcode_t xattr_array_update(struct ext2_xattr_handle *h, const char *nam
 	ENSURES(RET == 0 || (S64(h->count) == S64(verif_g1) && S64(h->ibody_count) == S64(verif_g0)))
 	ENSURES(0 <= h->ibody_count && h->ibody_count <= h->count && h->count <= h->capacity)
 	ASSIGNS(h->attrs, h->capacity, h->count, h->ibody_count, __CPROVER_object_whole(h->attrs), __CPROVER_object_whole(g_newarr),
-		verif_p0, verif_g4, verif_g2, g_off);
+		verif_p0, verif_g4, verif_g2, g_off, xat_mon);
 
 void h_array_update_space(void)
 {
@@ -124,14 +125,14 @@ void h_array_update_space(void)
 	ASSUME(IN.ibody_free >= -(1 << 30) && IN.ibody_free <= (1 << 30));
 	ASSUME(IN.block_free >= -(1 << 30) && IN.block_free <= (1 << 30));
 	ASSUME(IN.value_len <= (1u << 24));
-	struct ext2_xattr_handle *h = malloc(sizeof(*h));
+	struct ext2_xattr_handle H, *h = &H;	/* on the stack: CBMC propagates constants through it (a heap handle makes every size symbolic) */
 	/* contents arbitrary; typed heap objects of constant size (a symbolic-size byte object does not scale) */
 	struct ext2_xattr *a = malloc(4 * sizeof(struct ext2_xattr));
 	g_newarr = malloc(8 * sizeof(struct ext2_xattr));
 	g_newcap = 8;
 	ASSUME(g_newarr != 0);
 	char *name = malloc(26), *value = malloc(1);	/* contents irrelevant: strlen is uninterpreted, the value is only passed on */
-	ASSUME(h != 0 && a != 0 && name != 0 && value != 0);
+	ASSUME(a != 0 && name != 0 && value != 0);
 	h->magic = EXT2_ET_MAGIC_EA_HANDLE;
 	h->fs = 0;
 	h->attrs = a;
